@@ -100,6 +100,7 @@ public:
 
     Variant& operator=(const String& other)
     {
+      NSTD_VERIF_RC_YIELD("ref", &data->ref);
       if(data->type != textType || data->ref > 1)
       {
         clear();
@@ -110,6 +111,7 @@ public:
         data->ref = 1;
       }
       else
+        NSTD_VERIF_RC_YIELD_EXPR("write", &data->ref)
         *(String*)(data + 1) = other;
       return *this;
     }
@@ -126,6 +128,7 @@ public:
 
     Element& toElement()
     {
+      NSTD_VERIF_RC_YIELD("ref", &data->ref);
       if(data->type != elementType)
       {
         clear();
@@ -147,6 +150,7 @@ public:
         data->ref = 1;
         return *element;
       }
+      NSTD_VERIF_RC_YIELD("write", &data->ref);
       return *(Element*)(data + 1);
     }
 
